@@ -30,8 +30,11 @@ def run(tier, seed):
     progs = runner.compile_programs(items, want=('machine', 'codegen'))
     pairs = [(p, a) for p, a in zip(progs, asts) if p.ok]
     st, kinds, cases = c01.run_conform(chk, pairs, 8 if quick else 12, 400 if quick else 3000, 'end')
+    from props import c06
+    cs = c06.c_stage(chk, [p for p, a in pairs][::3 if quick else 2], rng, 2, 'EOF program')
     chk.coverage = {
-        'states': st['states'], 'transitions': st['transitions'], 'traces_validated_against_impl': len(pairs),
+        'states': st['states'] + cs['states'], 'transitions': st['transitions'] + cs['transitions'], 'traces_validated_against_impl': len(pairs) + cs['accepted'],
+        'c_stage': cs,
         'samples': [{'source': c['p'].src, 'args': c['p'].args, 'symbols': c['syms']} for c in cases[:2]],
         'programs_accepted': len(pairs), 'programs_generated': len(items), 'report_kinds': dict(kinds), 'exhaustive': False,
         'rule': '`end` in match / case / wait positions, in handlers, followed by actions and finish codes; every input up to the length bound over the symbol cells, followed by end()',
